@@ -699,3 +699,38 @@ package kapacitor
 //@     modifies elems(points)
 //@     invariant 0 <= i && i <= b.stop && l == len(b.window) && j == l - b.start + i && len(points) == b.size && samearray(points, before(points)) && b.stop <= b.start
 //@     invariant forall k int :: 0 <= k && k < j ==> points[k] == edge.BatchPointFromPoint(wtView(b, k))
+
+// ---------------------------------------------------------------- combine.go (C10, C05)
+
+// combine evaluates the node's expressions over the buffered points and forwards the merged
+// points downstream. Assumed (trusted): it only reads the buffer and the buffered messages.
+//@ func (*combineBuffer).combine
+//@   trusted
+//@   modifies nothing
+
+// addPoint rounds the (already copied) message's time to the tolerance and buffers it: appended to
+// the run of equal-time points, or -- after combining the previous run -- as the first point of a
+// new run. It must not panic whatever the buffer's capacity is.
+//@ func (*combineBuffer).addPoint
+//@   props C10 C05
+//@   requires b != nil && b.n != nil && b.n.c != nil && p != nil
+//@   modifies b.points, b.time, elems(b.points), gfi(p, mutated, bool)
+//@   ensures result == nil ==> len(b.points) >= 1 && b.points[len(b.points) - 1] == p
+//@   ensures result == nil ==> b.time == callarg(SetTime, 0) && called(SetTime)
+//@   ensures result == nil && callarg(SetTime, 0) == old(b.time) ==> len(b.points) == old(len(b.points)) + 1
+//@   ensures result == nil && callarg(SetTime, 0) == old(b.time) ==> forall k int :: 0 <= k && k < old(len(b.points)) ==> b.points[k] == old(b.points[k])
+//@   ensures result == nil && callarg(SetTime, 0) != old(b.time) ==> len(b.points) == 1 && called(combine)
+
+// The received message is not touched (a sibling branch sees the original): what is rounded and
+// buffered is a copy.
+//@ func (*combineBuffer).Point
+//@   props C10 C05
+//@   requires b != nil && b.n != nil && b.n.c != nil && b.n.timer != nil && p != nil && !gfi(p, mutated, bool)
+//@   ensures !gfi(p, mutated, bool)
+//@   ensures called(ShallowCopy) && called(addPoint) && callarg(addPoint, 0) == callresult(ShallowCopy, 0)
+//@ func (*combineBuffer).BatchPoint
+//@   props C10 C05
+//@   requires b != nil && b.n != nil && b.n.c != nil && b.n.timer != nil && bp != nil && !gfi(bp, mutated, bool)
+//@   ensures !gfi(bp, mutated, bool)
+//@   ensures called(ShallowCopy) && called(addPoint) && callarg(addPoint, 0) == callresult(ShallowCopy, 0)
+
